@@ -1216,15 +1216,19 @@ class Model:
                 # if it is an interaction with both categoric and numeric terms
                 if categoric and numeric:
                     numeric_set = set(numeric)
-                    numeric_part = ":".join(numeric)
                     if numeric_set not in numeric_group_sets:
                         numeric_group_sets.append(numeric_set)
                         numeric_groups.append({})
                     idx = numeric_group_sets.index(numeric_set)
                     # Prevent full encoding when numeric part is present outside
-                    # this numeric-categoric interaction
-                    if numeric_part in components:
-                        numeric_groups[idx][numeric_part] = []
+                    # this numeric-categoric interaction, in whatever order it was written
+                    for name, kinds in components.items():
+                        if isinstance(kinds, dict):
+                            names = set(kinds) if set(kinds.values()) == {"numeric"} else None
+                        else:
+                            names = {name} if kinds == "numeric" else None
+                        if names == numeric_set:
+                            numeric_groups[idx][name] = []
                     numeric_groups[idx][k] = categoric
 
         return [categoric_group] + numeric_groups
